@@ -2,6 +2,18 @@
 # Generates MANIFEST.json from the table below (kept in one place so it stays valid).
 import json
 checks = {
+ "C09": dict(cat="model_checking",
+   text="For every accepted program of the corpus K and the scaled families S (constants, identifiers, block and program names around every varint size class and the 4096-byte buffers, boundary floats and ints): Dump, then LoadProg under every member of a bounded family of read deliveries (whole, 1 byte/read, data+EOF, halves, all fixed sizes 2..17 and 4095..4097, every partition with <=1/2/3 cut points depending on dump size); disassembly, execution results, error positions and the re-dump must be identical, and the independent decoder must recover name and line table.",
+   note="Trusted: corpus reaches the size classes named in the property; float constants limited to boundary bit patterns; dumps > 6 kB get the fixed-size deliveries only.",
+   tech="exhaustive enumeration of read partitions (environment answers) per corpus program, round-trip + independent-decoder oracle", ref="§4 C09"),
+ "C10": dict(cat="model_checking",
+   text="For ~10^7 accepted programs (C01-C04 enumerations, K, S incl. 65535-byte jumps and >=241 operand indices) the dump is decoded independently and an explicit-state search over (pc, operand depth, block depth) follows both successors of every JFALSE, checking the structural invariants in every abstract state; the real VM's measured maxima and instruction count are cross-checked against the verifier and the reference VM.",
+   note="Trusted: pinned opcode/operand/stack-effect table in mc/bc (DESIGN appendix B). Programs outside the enumerated families are not covered.",
+   tech="explicit-state exploration of each compiled program's abstract state space (all control-flow paths), over an exhaustively enumerated program family", ref="§4 C10"),
+ "C14": dict(cat="model_checking",
+   text="(a) a recorded corpus of 2033 version-1.1 files (pinned-build dumps + hand-assembled files with every opcode, LOOP, NOP, negative/bool/nil constants, minor 0, wide operands) must load and execute to the recorded results; (b) all instruction sequences up to length 3 (thorough 4) over 38 instructions are assembled independently, verified, and executed by the real VM and the reference VM with pinned opcode numbers; (c) every dump of K, S and the C02-C04 enumerations is decoded by the independent decoder, re-encoded byte-identically and re-executed by the reference VM to the same result.",
+   note="Trusted: the recording (cross-validated against the reference VM when written) and the pinned tables; a symmetric change of Dump and Load is caught because the decoder/VM in mc/bc do not share code with /repo.",
+   tech="corpus replay + bounded-exhaustive instruction-sequence enumeration against a reference VM + independent decoding of every enumerated program's dump", ref="§4 C14"),
  "C01": dict(cat="model_checking",
    text="Every expression of a bounded space (full operator x operand cell table over 25 operands in 4 observation contexts; all trees of depth <=2 over 7 (thorough 10) atoms, 12 binary + 3 prefix operators and embedded assignments; all unparenthesised 4-operand (thorough 5) chains with every prefix pattern; redundant parentheses; nesting to 64) is run through the real Interpret and through an independent reference evaluator on the rendered text; value, dynamic type, print text, side effects, runtime-error class and position must agree.",
    note="Trusted: the reference model mc/ref (precedence-climbing parser + tree-walking evaluator over scope maps, written from README/NOTE/property text). Operand values limited to the alphabet. NaN ordering and block-valued operands excluded as unspecified.",
